@@ -80,6 +80,13 @@ CLAIMED = {
         "design_ref": "DESIGN.md 4 (E5), 5 (C18)",
         "note": _NOTE,
     },
+    "C19": {
+        "engine": "E9 reclaim",
+        "technique": "static analysis: counter/state-change pairing by dominance inside the sync loop, who-may-write on the occupancy counter, initialisation order w.r.t. recovery, dataflow of freed page lists from the update stages to the free list of the same store, reuse-before-growth dominance",
+        "text": "Structure only: the reported hash-table occupancy is a counter that follows every bucket state change of a sync (set_full / set_tombstone paired with +1 / -1), is initialised from the occupancy map after recovery and is written nowhere else; the pages each update stage frees (replaced pages and the tracker's extra_freed) are handed to the finisher of the same value file, to FreeList::commit and to the free-list encoder; the allocator consults the free list before growing. Whether every page is accounted for and the count is right is not decided.",
+        "design_ref": "DESIGN.md 10.2 (U1-U3)",
+        "note": _NOTE,
+    },
     "C20": {
         "engine": "E7 dirlock",
         "technique": "static analysis: must-pass-through dominance of file-touching calls by Flock::lock in open/create, constant flock flags, lock lifetime flow into Shared, drop order",
@@ -98,7 +105,6 @@ NOT_APPLICABLE = {
     "C10": "state equality across close/open over all histories; the one structural candidate is already settled by existing reopen tests (DESIGN.md 5, C10)",
     "C13": "result independence from configurations and schedules is behavioural; data-race freedom is rustc's guarantee and lock-order deadlocks are covered under C15 (DESIGN.md 5, C13)",
     "C16": "a property of file contents after histories; one layout-agreement clause was considered and deliberately not claimed because it covers one of a dozen layouts (DESIGN.md 5, C16)",
-    "C19": "leak-freedom and occupancy are accounting over runtime quantities; the pairing rules available would be brittle proxies that fire on behaviour-preserving refactors (DESIGN.md 5, C19)",
 }
 
 ENGINES = [
@@ -110,6 +116,7 @@ ENGINES = [
     {"name": "E4 lockgraph", "path": "rules/lockgraph.py", "serves_properties": ["C15"], "kind_free_text": "lock-order graph and access-lock rules"},
     {"name": "E5 panicfree", "path": "rules/panicfree.py", "serves_properties": ["C18"], "kind_free_text": "panic-site inventory with guard/invariant discharge"},
     {"name": "E5-T termination", "path": "rules/termination.py", "serves_properties": ["C18"], "kind_free_text": "loop classification (finite iterator types, counter / pop structure), recursion measure"},
+    {"name": "E9 reclaim", "path": "rules/reclaim.py", "serves_properties": ["C19"], "kind_free_text": "occupancy counter pairing / ownership, freed-page flow to the free list, reuse before growth"},
     {"name": "E6 vguard", "path": "rules/vguard.py", "serves_properties": ["C08"], "kind_free_text": "acceptance gated by checks"},
     {"name": "E7 dirlock", "path": "rules/dirlock.py", "serves_properties": ["C20"], "kind_free_text": "lock-before-touch dominance, flag constants, lifetime"},
     {"name": "E8 witness", "path": "witness/", "serves_properties": ["C08", "C12", "C15"], "kind_free_text": "compile_fail doctests with compiling twins (cargo +nightly test --doc)"},
